@@ -678,7 +678,7 @@ class AnsiString:
             (start, end) values where accompanying formats should be applied
         '''
         extend_formatting = True
-        match = re.search(r'^(?:(.?)([+-]?)<)?([0-9]*)$', string_format)
+        match = re.search(r'^(?:(.?)([+-]?)<)?([0-9]*)\Z', string_format, re.DOTALL)
         if match:
             # Left justify
             num = match.group(3)
@@ -695,7 +695,7 @@ class AnsiString:
                 self.apply_formatting(settings)
             return
 
-        match = re.search(r'^(.?)([+-]?)>([0-9]*)$', string_format)
+        match = re.search(r'^(.?)([+-]?)>([0-9]*)\Z', string_format, re.DOTALL)
         if match:
             # Right justify
             num = match.group(3)
@@ -712,7 +712,7 @@ class AnsiString:
                 self.apply_formatting(settings)
             return
 
-        match = re.search(r'^(.?)([+-]?)\^([0-9]*)$', string_format)
+        match = re.search(r'^(.?)([+-]?)\^([0-9]*)\Z', string_format, re.DOTALL)
         if match:
             # Center
             num = match.group(3)
@@ -794,7 +794,7 @@ class AnsiString:
 
             # This will allow a colon to be a fill character based on the expected format
             # (a fill character and a sign are only part of the string format in front of an alignment character)
-            format_match = re.match(r'(^(?:.?[-\+]?[<>\^])?[0-9]*)(:.*)?$', format_spec)
+            format_match = re.match(r'(^(?:.?[-\+]?[<>\^])?[0-9]*)(:.*)?\Z', format_spec, re.DOTALL)
 
             if not format_match:
                 format_parts = [format_spec]
